@@ -376,6 +376,170 @@ func final(x *harness.X, res *rt.Result) {
 	}
 }
 
+// ---- a slow peer and an ending session ------------------------------------------------------
+//
+// slowPeerBody: zero-size queues everywhere; the peer takes the first request, waits until
+// nothing else can move (the other callers' requests are then stuck in the pipeline, one of
+// them inside its send), answers it, and only reads on five seconds later. The first request's
+// caller has a two-second deadline: its response was sent at once, so it must get it.
+// endingBody: the peer answers the only request and finishes the session right behind it.
+
+type lateCall struct {
+	id       string
+	deadline time.Duration // 0: none
+	resp     *lime.ResponseCommand
+	err      error
+	retAt    time.Duration
+	returned bool
+}
+
+type lateState struct {
+	what      string
+	calls     []*lateCall
+	firstID   string
+	answerAt  map[string]time.Duration
+	snap      bool
+	finishErr error
+}
+
+func slowPeerBody(x *harness.X) {
+	lib.Reset()
+	s := &lateState{what: "slow-peer", answerAt: map[string]time.Duration{}}
+	x.Vars["late"] = s
+	ct, stp, _, _ := lib.Transports("inproc", 0, nil)
+	cc, sc, err := lib.EstablishedPair(ct, stp, 0)
+	if err != nil {
+		x.Failf("setup", "%v", err)
+		rt.Stop()
+	}
+	bg, stopAll := context.WithCancel(context.Background())
+	defer stopAll()
+	rt.BeginExplore()
+	go func() { // the peer
+		first := true
+		for {
+			var req *lime.RequestCommand
+			select {
+			case <-bg.Done():
+				return
+			case r, ok := <-sc.ReqCmdChan():
+				if !ok {
+					return
+				}
+				req = r
+			}
+			if first {
+				first = false
+				s.firstID = req.ID
+				rt.Quiesce() // everybody else is stuck somewhere in the pipeline now
+			}
+			s.answerAt[req.ID] = rt.Elapsed()
+			x.Obs("peer answers %s at %v", req.ID, rt.Elapsed())
+			_ = sc.SendResponseCommand(bg, lib.Resp(req.ID))
+			if req.ID == s.firstID {
+				time.Sleep(5 * time.Second) // a slow handler: nothing more is read meanwhile
+			}
+		}
+	}()
+	go func() { // nobody else consumes the response stream
+		for range cc.RespCmdChan() {
+		}
+	}()
+	for _, id := range []string{"x", "y", "z"} {
+		c := &lateCall{id: id, deadline: 2 * time.Second}
+		s.calls = append(s.calls, c)
+		go func() {
+			ctx, cancel := context.WithTimeout(bg, c.deadline)
+			defer cancel()
+			c.resp, c.err = cc.ProcessCommand(ctx, lib.Req(c.id, "/thing"))
+			c.retAt, c.returned = rt.Elapsed(), true
+			x.Obs("call %s returns err=%v at %v", c.id, c.err != nil, c.retAt)
+		}()
+	}
+	time.Sleep(20 * time.Second)
+	rt.Quiesce()
+	rt.EndExplore()
+	s.snap = true
+	rt.Stop()
+}
+
+func endingBody(kind string) func(x *harness.X) {
+	return func(x *harness.X) {
+		lib.Reset()
+		s := &lateState{what: "ending/" + kind, answerAt: map[string]time.Duration{}}
+		x.Vars["late"] = s
+		buf := rt.Choose(2)
+		if kind == "tcp" {
+			buf = 64 << 10
+		}
+		ct, stp, _, _ := lib.Transports(kind, buf, nil)
+		cc, sc, err := lib.EstablishedPair(ct, stp, rt.Choose(2))
+		if err != nil {
+			x.Failf("setup", "%v", err)
+			rt.Stop()
+		}
+		bg, stopAll := context.WithCancel(context.Background())
+		defer stopAll()
+		rt.BeginExplore()
+		go func() {
+			req, ok := <-sc.ReqCmdChan()
+			if !ok {
+				return
+			}
+			s.firstID = req.ID
+			s.answerAt[req.ID] = rt.Elapsed()
+			_ = sc.SendResponseCommand(bg, lib.Resp(req.ID))
+			fctx, c2 := context.WithTimeout(context.Background(), 5*time.Second)
+			defer c2()
+			s.finishErr = sc.FinishSession(fctx)
+			x.Obs("peer answered and finished the session")
+		}()
+		c := &lateCall{id: "x", deadline: 30 * time.Second}
+		s.calls = append(s.calls, c)
+		go func() {
+			ctx, cancel := context.WithTimeout(bg, c.deadline)
+			defer cancel()
+			c.resp, c.err = cc.ProcessCommand(ctx, lib.Req(c.id, "/thing"))
+			c.retAt, c.returned = rt.Elapsed(), true
+			x.Obs("call %s returns err=%v", c.id, c.err != nil)
+		}()
+		for i := 0; i < 2; i++ {
+			rt.Quiesce()
+			time.Sleep(6 * time.Second)
+		}
+		rt.Quiesce()
+		rt.EndExplore()
+		s.snap = true
+		rt.Stop()
+	}
+}
+
+func lateFinal(x *harness.X, res *rt.Result) {
+	if res.Crash != "" {
+		x.Failf("crash:"+res.CrashSite, "%s", strings.SplitN(res.Crash, "\n", 2)[0])
+		return
+	}
+	s, _ := x.Vars["late"].(*lateState)
+	if s == nil || !s.snap {
+		return
+	}
+	hist := fmt.Sprintf("[%s; %s]", s.what, strings.Join(x.Log(), " | "))
+	for _, c := range s.calls {
+		at, answered := s.answerAt[c.id]
+		if !answered || c.id != s.firstID {
+			continue // only the request that was answered without delay is judged
+		}
+		switch {
+		case !c.returned:
+			x.Failf("late:caller-stuck:"+s.what, "call %s never returned although its response was sent at %v %s", c.id, at, hist)
+		case c.err != nil && at < c.deadline-500*time.Millisecond:
+			x.Failf("late:response-sent-in-time-but-call-failed:"+s.what, "call %s (deadline %v) failed with %q although its response was sent at %v %s", c.id, c.deadline, c.err, at, hist)
+		case c.err == nil && (c.resp == nil || c.resp.ID != c.id):
+			x.Failf("late:wrong-response:"+s.what, "call %s got %v %s", c.id, c.resp, hist)
+		}
+	}
+}
+
 func contains(l []int, n int) bool {
 	for _, x := range l {
 		if x == n {
@@ -395,7 +559,7 @@ func main() {
 	harness.Main(harness.Check{
 		Property: "C05",
 		Level:    "model_checking",
-		Rule:     "2-3 concurrent ProcessCommand callers with ids from {x,y,X} (same-id, different-id and differ-only-by-case collisions, second round reusing an id), optional canceller of one context, a stream reader, and a peer that addresses its responses {without to, to the client's node, to its bare identity} and answers each request from the plan {own id, omitted, duplicated, unknown id first, deferred until the next request} - all plan/id combinations as data choices x all schedules within the deviation bound; history checked against a pending-command-table model; distinct outcome = distinct observation log",
+		Rule:     "2-3 concurrent ProcessCommand callers with ids from {x,y,X} (same-id, different-id and differ-only-by-case collisions, second round reusing an id), optional canceller of one context, a stream reader, and a peer that addresses its responses {without to, to the client's node, to its bare identity} and answers each request from the plan {own id, omitted, duplicated, unknown id first, deferred until the next request} - all plan/id combinations as data choices x all schedules within the deviation bound; history checked against a pending-command-table model; plus a slow peer (zero-size queues, the first request answered at once, nothing read for the next five seconds, callers with two-second deadlines) and a peer that answers and finishes the session right behind the response; distinct outcome = distinct observation log",
 		Assume:   []string{"channel and transport buffers of size 1 (in-process) / 64KiB pipe (TCP, WebSocket)", "delay bounding: every departure from the default schedule (continue the running goroutine; at a block, the lowest-numbered enabled goroutine) costs one deviation; no I/O stall is injected", "pruning assumes all shared state is reached through hooked operations (the pending-command map is guarded by its RWMutex)"},
 		Scenarios: []harness.Scenario{
 			mk("inproc/2callers/plans5x3", "inproc", false, full, 3, 1, 1),
@@ -404,6 +568,9 @@ func main() {
 			mk("inproc/2callers/plans3x2", "inproc", false, small, 2, -1, 2),
 			mk("tcp/2callers/plans3x2", "tcp", false, small, 2, -1, 2),
 			mk("inproc/3callers/plans3x3", "inproc", true, small, 3, -1, 1),
+			{Name: "slow-peer/3callers-with-deadlines", Opt: opt, Quick: 1, Thorough: 2, Prune: true, Body: slowPeerBody, Final: lateFinal},
+			{Name: "response-then-finished/inproc", Opt: opt, Quick: 1, Thorough: 2, Prune: true, Body: endingBody("inproc"), Final: lateFinal},
+			{Name: "response-then-finished/tcp", Opt: opt, Quick: 1, Thorough: 2, Prune: true, Body: endingBody("tcp"), Final: lateFinal},
 		},
 	})
 }
